@@ -1,11 +1,22 @@
 #!/bin/bash
-# usage: tools/try_mutant.sh <patch.diff> <PROP> [tier]  -- applies the patch to /repo, runs the check, reverts.
+# usage: tools/try_mutant.sh <patch.diff> <PROP> [tier]
+# Default: applies the patch to /repo, runs the check, reverts (git -C /repo checkout -- .).
+# With MUTANT_SCRATCH=1 the patch is applied to a scratch worktree of /repo's HEAD instead and the check runs against
+# that copy (VERIF_REPO), so that /repo stays untouched while other checks are running.
 PATCH="$(realpath "$1")"; PROP="$2"; TIER="${3:-quick}"
 cd /verif || exit 2
-if ! git -C /repo diff --quiet; then echo "/repo has uncommitted changes"; exit 2; fi
-git -C /repo apply "$PATCH" || { echo "patch does not apply"; exit 2; }
-./check "$PROP" --tier "$TIER" > /tmp/mutant-$PROP.out 2>&1; code=$?
-git -C /repo checkout -- .
+if [ -n "$MUTANT_SCRATCH" ]; then
+  WT=$(mktemp -d /tmp/verif-mutwt.XXXXXX); rmdir "$WT"
+  git -C /repo worktree add -q --detach "$WT" HEAD || exit 2
+  trap 'git -C /repo worktree remove --force "$WT" >/dev/null 2>&1; rm -rf "$WT"' EXIT
+  git -C "$WT" apply "$PATCH" || { echo "patch does not apply"; exit 2; }
+  VERIF_REPO="$WT" ./check "$PROP" --tier "$TIER" > /tmp/mutant-$PROP.out 2>&1; code=$?
+else
+  if ! git -C /repo diff --quiet; then echo "/repo has uncommitted changes"; exit 2; fi
+  git -C /repo apply "$PATCH" || { echo "patch does not apply"; exit 2; }
+  ./check "$PROP" --tier "$TIER" > /tmp/mutant-$PROP.out 2>&1; code=$?
+  git -C /repo checkout -- .
+fi
 grep -E "^VIOLATION|^KNOWN|^INCONCLUSIVE|^  key=|^$PROP tier" /tmp/mutant-$PROP.out | cut -c1-260 | head -12
 echo "exit=$code"
 git checkout -q -- evidence/$PROP.json 2>/dev/null
